@@ -307,7 +307,9 @@ def _facts(expr: ast.AST, truth: bool) -> set[str]:
                           or (isinstance(op, ast.Eq) and c is not None and c >= 1)):
                 out.add(kl)
             if not truth and ((isinstance(op, ast.Eq) and c == 0) or (isinstance(op, ast.Lt) and c is not None and c <= 1)
-                              or (isinstance(op, ast.LtE) and c == 0)):
+                              or (isinstance(op, ast.LtE) and c == 0) or (isinstance(op, ast.NotEq) and c is not None and c >= 1)):
+                out.add(kl)
+            if truth and isinstance(op, ast.NotEq) and c == 0:
                 out.add(kl)
             if truth and isinstance(op, ast.NotEq) and c == 0:
                 out.add(kl)
